@@ -97,7 +97,7 @@ func Selftest() []string {
 		problems = append(problems, fmt.Sprintf("only %d TestCalc inputs found", len(inputs)))
 	}
 	for _, in := range inputs {
-		o := sess.Compare([]string{in}, sess.Options{RefFuel: 1000000})
+		o := sess.Compare([]string{in}, sess.Options{RefFuel: 1000000, AllowParseErrors: true}) // some rows are syntax errors on purpose
 		if o.Sig != "" {
 			problems = append(problems, fmt.Sprintf("TestCalc input %q: implementation and reference disagree: %s %s", in, o.Sig, o.Detail))
 		}
